@@ -1,11 +1,50 @@
 (* C10 - HLS playlists and segments are consistent at every instant.
-   Only property statements here. *)
-From Lal Require Import Common.LBytes Hls.HlsFloat Hls.HlsFs Hls.HlsPlaylist Hls.HlsMuxer Hls.HlsConsistent.
+   Only property statements here.  Vocabulary:
+     run c evs            the sequence of file-system-layer calls hls.Muxer makes for the history evs (HlsMuxer.v)
+     state_at c evs k     the file system after the first k calls (a crash point); ver_at = playlist versions published so far
+     wf_evs c Clean evs   histories from an empty stream directory in which a 376-byte PAT/PMT is fed before the first
+                          frame of each publication, frames are whole 188-byte packets, and a re-publication happens
+                          only after the deferred cleanup removed the directory (the other case: c10_republish_seq_refuted)
+     cfg_ok c             fragment_num >= 1, delete_threshold >= 0, 0 <= fragment_duration_ms <= 2^35 *)
+From Coq Require Import ZArith Bool List Lia.
+From Lal Require Import Common.LBytes Hls.HlsFloat Hls.HlsFs Hls.HlsPlaylist Hls.HlsMuxer Hls.HlsConsistent
+  Hls.HlsInv Hls.HlsRunProofs Hls.HlsTraceProofs.
 Open Scope Z_scope.
+
+(* At EVERY prefix of the operation sequence: the live playlist, if present, is a complete playlist (the text
+   writePlaylist prints for some structured playlist); its target duration is at least every listed duration
+   (as listed, "%.3f") rounded to the nearest second; every listed segment exists, is closed, is a whole number of
+   188-byte packets and begins with a PAT/PMT. *)
+Theorem c10_inv_every_prefix : forall c evs k,
+  cfg_ok c -> wf_evs c Clean evs -> live_ok c (state_at c evs k).
+Proof. exact every_prefix_live_ok. Qed.
+Print Assumptions c10_inv_every_prefix.
+
+(* The media sequence number never decreases from one instant to a later one (as long as the directory is not
+   removed in between). *)
+Theorem c10_media_sequence_monotone : forall c evs j k fj fk,
+  cfg_ok c -> wf_evs c Clean evs -> (j <= k)%nat ->
+  no_removeall (skipn j (firstn k (run c evs))) ->
+  fs_lookup PLive (state_at c evs j) = Some fj -> fs_lookup PLive (state_at c evs k) = Some fk ->
+  exists pj pk, fdata fj = print_live (c_stream c) pj /\ fdata fk = print_live (c_stream c) pk /\ pl_seq pj <= pl_seq pk.
+Proof. exact media_sequence_monotone. Qed.
+Print Assumptions c10_media_sequence_monotone.
+
+(* Segments listed by the playlist at instant j are still present, closed and well-formed at every later instant k
+   by which at most delete_threshold further playlist versions have been published. *)
+Theorem c10_listed_segments_stay : forall c evs j k fj,
+  cfg_ok c -> wf_evs c Clean evs -> (j <= k)%nat ->
+  no_removeall (skipn j (firstn k (run c evs))) ->
+  ver_at c evs k - ver_at c evs j <= c_thr c ->
+  fs_lookup PLive (state_at c evs j) = Some fj ->
+  exists pj, fdata fj = print_live (c_stream c) pj /\ Forall (seg_file_ok (state_at c evs k)) (pl_segs pj).
+Proof. exact listed_segments_stay. Qed.
+Print Assumptions c10_listed_segments_stay.
 
 (* F-16 and its sibling, on the pinned tree's computation (live_target_orig): the target duration is smaller
    than a listed duration rounded to the nearest second.
-   (a) fragment_duration_ms = 3900, one segment of 3.8 s;  (b) fragment_duration_ms = 3000, segments of 3.2 s then 3.6 s. *)
+   (a) fragment_duration_ms = 3900, one segment of 3.8 s;  (b) fragment_duration_ms = 3000, segments of 3.2 s then 3.6 s.
+   Fixed in lal by 2d98dbf (calcTargetDuration); live_target models the fixed code and c10_inv_every_prefix holds for it. *)
 Theorem c10_target_orig_refuted :
   (exists c l f, In f l /\ live_target_orig c l < listed_seconds (seg_of f) /\ c_ms c = 3900 /\ length l = 1%nat) /\
   (exists c l f, In f l /\ live_target_orig c l < listed_seconds (seg_of f) /\ c_ms c = 3000).
@@ -19,3 +58,24 @@ Proof.
     vm_compute. intuition congruence.
 Qed.
 Print Assumptions c10_target_orig_refuted.
+
+(* ---- non-vacuity: a history that meets the hypotheses and publishes playlists ---- *)
+Definition ex_pp : bytes := ([71; 64; 0] ++ repeat 0 185 ++ [71; 80; 1] ++ repeat 0 185)%N%list.
+Definition ex_pk (k : N) : bytes := ([71; 65; 0; k] ++ repeat 0 184)%N%list.
+Definition ex_cfg : cfg := mkcfg [115%N] 1000 1 0 2.
+Definition ex_evs : list event :=
+  [EvNew; EvPatPmt ex_pp; EvFeed false 0 0 true 5 (ex_pk 1); EvFeed false 0 90000 true 6 (ex_pk 2);
+   EvFeed false 0 180000 true 7 (ex_pk 3); EvDispose; EvCleanup; EvNew; EvPatPmt ex_pp].
+
+Example c10_hypotheses_satisfiable :
+  cfg_ok ex_cfg /\ wf_evs ex_cfg Clean ex_evs /\
+  length (run ex_cfg ex_evs) = 23%nat /\
+  (exists f, fs_lookup PLive (state_at ex_cfg ex_evs 15) = Some f /\
+     fdata f = print_live [115%N] (mkpl 1 1 [mkseg 6 1 (f_div (f_of_Z 90000) (f_of_Z 90000)) false] false)) /\
+  ver_at ex_cfg ex_evs 15 = 2.
+Proof.
+  split; [unfold cfg_ok; cbn; lia|].
+  split; [cbn; unfold good_pp, whole_pkts; repeat split; reflexivity|].
+  split; [vm_compute; reflexivity|].
+  split; [eexists; split; vm_compute; reflexivity|vm_compute; reflexivity].
+Qed.
